@@ -54,7 +54,10 @@ func buildForest(c *vcore.Ctx, root string) *c02forest {
 	}
 	targets := []string{"../c", "../a/b", "b", "f1", "../f0", "..", "../..", root + "/c/d", root + "/a", root + "/a/b/f2", "nowhere", "../a/l0", "../c/l1", "l2", "/", "b/../../c", ".",
 		// targets whose text passes through another link and then "..": ".." applies to where that link leads
-		"l0/..", "l1/../f0", "l0/../f1", "../a/l0/../f3", "../c/l1/..", "l2/../b", "../l0/../c", "l1/../../a/f1", "l3/../l0"}
+		"l0/..", "l1/../f0", "l0/../f1", "../a/l0/../f3", "../c/l1/..", "l2/../b", "../l0/../c", "l1/../../a/f1", "l3/../l0",
+		// targets that go through the calling program's own /proc entries (the shape of /dev/stdin, /dev/fd):
+		// "self" is the program that makes the call, not whoever inspects it
+		"/proc/self/cwd", "/proc/self/cwd/f0", "/proc/thread-self/cwd", "/proc/self/cwd/../a", "/proc/self/root" + root + "/c"}
 	n := 2 + src.Int(5, "nlinks")
 	f.nlinks = n
 	var desc []string
@@ -194,6 +197,18 @@ func (f *c02forest) genPath(c *vcore.Ctx, base string) string {
 func kernelResolve(pid int, dfd uint64, path string, follow bool) (string, bool) {
 	if path == "" {
 		return "", false
+	}
+	// Links of the forest may lead through /proc/self/cwd: the kernel follows them for whoever makes the call.
+	// For the duration of its own look-up the harness therefore stands where the stopped program stands (one
+	// run at a time per worker process; the library under test has long finished its own resolution).
+	if old, err := unix.Open(".", unix.O_PATH|unix.O_CLOEXEC, 0); err == nil {
+		defer unix.Close(old) // (runs after the Fchdir back)
+		if cw, err := unix.Open(fmt.Sprintf("/proc/%d/cwd", pid), unix.O_PATH|unix.O_CLOEXEC, 0); err == nil {
+			if unix.Fchdir(cw) == nil {
+				defer unix.Fchdir(old)
+			}
+			unix.Close(cw)
+		}
 	}
 	full := path
 	if strings.HasPrefix(path, "/") {
